@@ -128,6 +128,11 @@ func trimStack(st []byte) string {
 	return strings.Join(out, "\n")
 }
 
+// HangAfter is the per-case watchdog for journalled checks and replays. Normal
+// cases take micro- to milliseconds; the watchdog only triggers confirmation
+// by the driver (the case is re-run alone), it is never a verdict by itself.
+var HangAfter = 15 * time.Second
+
 // Check describes one generated check of a property.
 type Check[C any] struct {
 	Name    string
@@ -380,7 +385,7 @@ func eval[C any](s *Session, c *Check[C], cs C, count bool, enumerated bool) eva
 	}
 	var wd *time.Timer
 	if c.Journal {
-		wd = time.AfterFunc(60*time.Second, func() {
+		wd = time.AfterFunc(HangAfter, func() {
 			fmt.Printf("HANG check=%s\n", c.Name)
 			os.Exit(97)
 		})
